@@ -579,7 +579,8 @@ func nodeType2(interp *Interpreter, sc *scope, n *node, seen []*node) (t *itype,
 		if t.untyped && !isShiftNode(n) {
 			var t1 *itype
 			t1, err = nodeType2(interp, sc, n.child[1], seen)
-			if !(t1.untyped && isInt(t1.TypeOf()) && isFloat(t.TypeOf())) {
+			// Between untyped numeric operands, the kind which appears later in integer, rune, float, complex wins.
+			if rt, rt1 := t.TypeOf(), t1.TypeOf(); !(t1.untyped && isNumber(rt) && isNumber(rt1) && rt1.Kind() < rt.Kind()) {
 				t = t1
 			}
 		}
